@@ -71,7 +71,7 @@ ApplyParse(m, o, e, obj, step) ==
   LET f1 == ExcClass(TRUE, e, "parse.exc", step)
       phi0 == PhiOf(obj)
       impl == IF IsWritten(obj) /\ obj.implAst.op # "none" THEN NormAst(obj.implAst, obj.units) ELSE obj.implAst
-      f2 == IF f1 = Ok /\ impl # phi0 THEN F("parse.ast", step, phi0, impl) ELSE Ok IN
+      f2 == IF f1 = Ok /\ obj.implKnown /\ impl # phi0 THEN F("parse.ast", step, phi0, impl) ELSE Ok IN
   R(ParseF(m, phi0), o, f1 \o f2, 0)
 
 ApplyPastify(m, o, e, step) ==
